@@ -6,6 +6,7 @@ import (
 	"math/rand"
 	"net"
 	"net/url"
+	"strings"
 	"time"
 
 	"github.com/vipnode/vipnode/v2/ethnode"
@@ -62,8 +63,106 @@ func genOverride(rng *rand.Rand, nodeID string) string {
 	return s + host + port + tail
 }
 
+// c19Handed: a pool with hosts of both kinds, some of them stale, and nodes that registered as a
+// host and later again as a light client (their host connection stays open). Whatever the store
+// lists as hosts and whatever a client is handed: every entry's address names the entry's own
+// node id, at the host:port that node registered with.
+func c19Handed(ctx *Ctx, i int, rng *rand.Rand) {
+	drv := i % 2
+	if rng.Intn(4) != 0 {
+		drv = drvBdg
+	}
+	w := newWorld(worldCfg{Drv: drv, Price: "1000", IntervalNs: 60e9, Settle: true})
+	defer w.Close()
+	names := []string{"h1", "h2", "h3", "h4", "h5", "h6", "h7", "h8"}
+	addrOf := map[string]string{} // node id -> host:port it registered with
+	roles := map[string]string{}
+	var mon []string
+	reg := func(name string, host bool, kind string, k int) {
+		uri := ""
+		if host {
+			uri = fmt.Sprintf("enode://%s@10.7.%d.%d:%d", nodeIDOf(name), k, k+1, 30303+k)
+			addrOf[nodeIDOf(name)] = fmt.Sprintf("10.7.%d.%d:%d", k, k+1, 30303+k)
+		}
+		if _, err := w.connect(name, host, kind, "", uri); err != nil {
+			fatal("connect %s: %v", name, err)
+		}
+	}
+	var stale []string
+	for k, nme := range names {
+		if rng.Intn(4) == 0 {
+			stale = append(stale, nme)
+			reg(nme, true, []string{"geth", "parity"}[rng.Intn(2)], k)
+			roles[nme] = "stale host"
+		}
+	}
+	shiftTime(w.st.Store, 130*time.Second)
+	for k, nme := range names {
+		if roles[nme] != "" {
+			continue
+		}
+		kind := []string{"geth", "parity"}[rng.Intn(2)]
+		switch rng.Intn(4) {
+		case 0: // a host that comes back as a light client of either kind
+			reg(nme, true, kind, k)
+			reg(nme, false, []string{"geth", "parity"}[rng.Intn(2)], k)
+			roles[nme] = "host, then light client"
+		case 1:
+			reg(nme, false, kind, k)
+			roles[nme] = "light client " + kind
+		default:
+			reg(nme, true, kind, k)
+			roles[nme] = "host " + kind
+		}
+	}
+	check := func(what string, n store.Node) {
+		ok, id, _ := readRef(n.URI)
+		hostport := ""
+		if at := strings.LastIndex(n.URI, "@"); at >= 0 {
+			hostport = n.URI[at+1:]
+		}
+		name := w.nameOf(string(n.ID), names)
+		switch {
+		case !ok || id != string(n.ID):
+			mon = append(mon, fmt.Sprintf("c19-handed-identity: %s: the entry for node %s (%s) carries the address %q, which names node %s (%s)", what, shortID(string(n.ID)), name, n.URI, shortID(id), w.nameOf(id, names)))
+		case hostport != addrOf[string(n.ID)]:
+			mon = append(mon, fmt.Sprintf("c19-handed-address: %s: the entry for node %s (%s) carries host:port %q; it registered with %q", what, shortID(string(n.ID)), name, hostport, addrOf[string(n.ID)]))
+		}
+	}
+	handed := 0
+	for _, kind := range []string{"", "geth", "parity"} {
+		if ans, err := w.st.ActiveHosts(kind, 0); err == nil {
+			for _, n := range ans {
+				handed++
+				check(fmt.Sprintf("%s store, hosts of kind %q", driverNames[drv], kind), n)
+			}
+		}
+	}
+	for k, kind := range []string{"geth", "parity", ""} {
+		cl := fmt.Sprintf("c%d", k+1)
+		if _, err := w.connect(cl, false, []string{"geth", "parity"}[k%2], "", ""); err != nil {
+			fatal("connect client: %v", err)
+		}
+		if r, err := w.peer(cl, 6, kind); err == nil && r != nil {
+			for _, n := range r.Peers {
+				handed++
+				check(fmt.Sprintf("%s store, peers handed to a client asking for kind %q", driverNames[drv], kind), n)
+			}
+		}
+	}
+	if len(mon) > 4 {
+		mon = mon[:4]
+	}
+	ctx.Emit(Case{I: i, Kind: "handed-out-" + driverNames[drv], Desc: map[string]interface{}{"roles": roles, "entries_checked": handed}, Monitor: mon})
+}
+
 func runC19(ctx *Ctx) {
 	n := ctx.N(1200, 30000)
+	for c := 0; c < ctx.N(10, 150); c++ {
+		if ctx.Want(n + 700 + c) {
+			c19Handed(ctx, n+700+c, ctx.Sub(n+700+c))
+		}
+	}
 	if ctx.Want(n + 10) {
 		defer c19WS(ctx, n+10)
 	}
